@@ -49,7 +49,34 @@ impl Harness for Life {
     let built = topo::build(&self.topo, &obs, "t");
     let rec = Recorder::new();
     let mut trace: Vec<String> = vec![];
-    let sig_base = format!("topo={}", built.label);
+    // an unbounded retry over a source that fails inside every subscribe (directly, or through a
+    // dematerialize below it) loops by definition: no greeting there
+    let retrying = matches!(&self.topo, Topo::Comb { comb, .. } if matches!(comb, crate::topo::Comb::Retry | crate::topo::Comb::RetryWhen));
+    // C06: one solver-chosen source may emit synchronously inside its subscribe call (an item, an item and
+    // its completion, or an error): the cause then occurs while the operator is still subscribing its inputs
+    let mut greeted: Option<usize> = None;
+    let mut greeted_done = false;
+    if self.prop == "C06" && !retrying {
+      let g = sym::choose("greet.src", n_src + 1);
+      if g < n_src {
+        let x = Sym::var("greet.x", 5);
+        let evs = match sym::choose("greet.kind", 3) {
+          0 => vec![Ev::Next(x)],
+          1 => {
+            greeted_done = true;
+            vec![Ev::Next(x), Ev::Complete]
+          }
+          _ => {
+            greeted_done = true;
+            vec![Ev::Error(Sym::var("greet.p", 66))]
+          }
+        };
+        trace.push(format!("greeting(s{})=[{}]", g, script_short(&evs)));
+        *hots[g].greeting.lock().unwrap() = evs;
+        greeted = Some(g);
+      }
+    }
+    let sig_base = format!("topo={}{}", built.label, if greeted.is_some() { ";sync-source" } else { "" });
 
     // connectable topologies: connect before or after the subscriber arrives
     let mut conn = None;
@@ -82,6 +109,9 @@ impl Harness for Life {
     let ill_formed = self.prop == "C01";
     let mut unsubscribed = false;
     let mut src_done = vec![false; n_src];
+    if let (Some(g), true) = (greeted, greeted_done) {
+      src_done[g] = true;
+    }
     let mut was_subscribed_ok = true;
     let mut log_len_at_unsub = 0usize;
 
